@@ -184,6 +184,13 @@ def _builtin(m, name, args, c, I):
         return r
     if name in ('print', 'println'):
         return None
+    if name == 'recover':
+        if m.panic_stack and m.panic_stack[-1] is not None:
+            p = m.panic_stack[-1]
+            m.panic_stack[-1] = None
+            v = p.value
+            return v if isinstance(v, X.Iface) else X.Iface('string', str(v))
+        return None
     if name == 'ssa:wrapnilchk':
         if args[0].obj is None:
             raise X.GoPanic("value method called using nil pointer")
